@@ -312,6 +312,33 @@ impl Hist {
                 let dt = *rnd::pick(&mut w.r, &[0i64, 1, 1, 30, 59, 60, 61, 600, 3599, 3600, 3601, 86_400, 1_000_000, 1, 60, 3600, 2_147_483_648, 4_294_967_301]);
                 w.advance_clock(dt);
                 acc.count("clock_advance");
+                // on transfer-fee workloads the epoch sometimes moves to just before / exactly / just after the epoch in
+                // which a pool mint's newer fee schedule starts (epochs only move forward)
+                if cfg.allow_transfer_fee && rnd::chance(&mut w.r, 1, 3) {
+                    use spl_token_2022::extension::{transfer_fee::TransferFeeConfig, BaseStateWithExtensions, StateWithExtensions};
+                    let mut starts: Vec<u64> = vec![];
+                    for pl in &w.pools {
+                        for m in [pl.mint_a, pl.mint_b] {
+                            if let Some(a) = w.bank.get(&m) {
+                                if a.owner == TOKEN22 {
+                                    if let Ok(st) = StateWithExtensions::<spl_token_2022::state::Mint>::unpack(&a.data) {
+                                        if let Ok(c) = st.get_extension::<TransferFeeConfig>() {
+                                            starts.push(u64::from(c.newer_transfer_fee.epoch));
+                                        }
+                                    }
+                                }
+                            }
+                        }
+                    }
+                    if !starts.is_empty() {
+                        let e = *rnd::pick(&mut w.r, &starts);
+                        let target = (e as i64 + *rnd::pick(&mut w.r, &[-1i64, 0, 0, 1])).max(0) as u64;
+                        if target > w.bank.clock.epoch {
+                            w.bank.clock.epoch = target;
+                            acc.count("epoch_moved_to_a_fee_schedule_switch");
+                        }
+                    }
+                }
             });
             pick!(cfg.w_lifecycle, {
                 if cfg.lifecycle_ext && w.r.gen() {
